@@ -10,6 +10,7 @@ from symx.core import term
 from symx.runner import F, JobAcc
 
 PROPERTY = "C04"
+UNIT_LEVEL_SIGS = r"unit:"  # unit-lemma counter-examples are reported as unit-level, never as VIOLATION (DESIGN 6 C04 U1)
 BUDGET = {"quick": 170, "thorough": 1700}
 META = {
     "explanation": "bounded symbolic execution of the real ThresholdOptimizer.fit (both _threshold_optimization_* paths, _reformat_and_group_data, "
@@ -48,6 +49,8 @@ def jobs(tier, seed):
             gsel = [rnd.choice(grids)] if tier == "quick" else rnd.sample(grids, 2)
             for gs in gsel:
                 js.append({"id": f"s{si}-{cfg[0]}-{cfg[1]}-{'flip' if cfg[2] else 'noflip'}-g{gs}", "y": y, "groups": g, "cfg": list(cfg), "grid": gs})
+    for K in ((2, 3, 4, 5) if tier == "quick" else (2, 3, 4, 5, 6)):
+        js.insert(0, {"id": f"hullU1-K{K}", "kind": "hullU1", "K": K})
     return js
 
 
@@ -66,6 +69,11 @@ def group_metric_values(cons, y, groups, p1):
 
 def run_job(job, deadline):
     acc = JobAcc(job)
+    if job.get("kind") == "hullU1":
+        from harness import hull
+
+        hull.explore_hull(acc, job["K"], deadline, ("parity",), "c04")
+        return acc.result()
     y, groups, cfg, gs = job["y"], job["groups"], tuple(job["cfg"]), job["grid"]
     n = len(y)
 
@@ -106,6 +114,10 @@ def run_job(job, deadline):
 
 
 def replay(cex):
+    if cex["job"].get("kind") == "hullU1":
+        from harness import hull
+
+        return hull.replay_unit(cex)
     job, mdl = cex["job"], cex["model"]
     y, groups, cfg, gs = job["y"], job["groups"], tuple(job["cfg"]), job["grid"]
     n = len(y)
